@@ -22,6 +22,9 @@ CONSTANTS
   DevEncCheckIgnoresStrict = FALSE
   DevCasefoldOpaqueHashFails = FALSE
   DevDupFoldsPlainDir = FALSE
+  BSz = 2
+  SizeClasses = {"end"}
+  DevSizeLimitInclusive = FALSE
   DevInodeUninitWipes = FALSE
 INVARIANT TypeOK
 INVARIANT TreeUnchanged
